@@ -118,6 +118,8 @@ func cmdVerify(args []string) {
 	timeout := fs.Int("t", 10, "solver timeout (s)")
 	keep := fs.Bool("keep", false, "keep query files")
 	verbose := fs.Bool("v", false, "")
+	modelRe := fs.String("model", "", "dump scalar model values of failing obligations whose name contains this")
+	only := fs.String("only", "", "discharge only obligations whose name contains this")
 	fs.Parse(args)
 	specs := defaultSpecs(*repo, *verif)
 	if *spec != "" {
@@ -157,6 +159,15 @@ func cmdVerify(args []string) {
 				fmt.Printf("%s [%s]: ERROR %v\n", key, m, res.Err)
 				bad++
 			}
+			if *only != "" {
+				var keep []*Obligation
+				for _, o := range res.Obls {
+					if strings.Contains(o.Name, *only) {
+						keep = append(keep, o)
+					}
+				}
+				res.Obls = keep
+			}
 			discharge(res.Obls, dischargeCfg{dir: dir, timeoutS: *timeout, idxSortOf: idxSortOf})
 			discharge(res.ReachChecks, dischargeCfg{dir: dir, timeoutS: *timeout, idxSortOf: idxSortOf})
 			ok := 0
@@ -169,6 +180,11 @@ func cmdVerify(args []string) {
 				} else {
 					bad++
 					fmt.Printf("  FAIL %-60s %s %v  %s\n", o.Name, o.Status, o.Answers, o.Pos)
+					if *modelRe != "" && strings.Contains(o.Name, *modelRe) && o.Status == "sat" {
+						for _, l := range scalarModel(o.Model) {
+							fmt.Println("      ", l)
+						}
+					}
 				}
 			}
 			for _, o := range res.ReachChecks {
@@ -205,4 +221,39 @@ func sortedKeys(m map[string]bool) []string {
 	}
 	sort.Strings(ks)
 	return ks
+}
+
+// scalarModel extracts `name = value` lines for scalar constants from a
+// solver model.
+func scalarModel(out string) []string {
+	txt := strings.Join(strings.Fields(out), " ")
+	var res []string
+	for _, part := range strings.Split(txt, "(define-fun ")[1:] {
+		i := strings.Index(part, " () ")
+		if i < 0 {
+			continue
+		}
+		name := part[:i]
+		rest := part[i+4:]
+		if strings.HasPrefix(rest, "(Array") {
+			continue
+		}
+		// sort then value
+		var sort, val string
+		if strings.HasPrefix(rest, "(_ BitVec") {
+			j := strings.Index(rest, ")")
+			sort, val = rest[:j+1], strings.TrimSpace(rest[j+1:])
+		} else {
+			j := strings.Index(rest, " ")
+			sort, val = rest[:j], strings.TrimSpace(rest[j+1:])
+		}
+		_ = sort
+		val = strings.TrimSuffix(strings.TrimSpace(val), ")")
+		if len(val) > 60 {
+			continue
+		}
+		res = append(res, name+" = "+val)
+	}
+	sort.Strings(res)
+	return res
 }
